@@ -60,6 +60,7 @@ fn main() {
     let mut out = Out::new();
     let mut rng = Rng::new(seed, 0xC14);
     let kinds = all_kinds();
+    let mut cases_prefix = 0usize;
     let (mut n_enc, mut n_prefix, mut n_boundaries, mut n_byte_exhaustive, mut nonappend, mut cases) = (0usize, 0usize, 0usize, 0usize, 0usize, 0usize);
     let mut by_seek: BTreeMap<String, usize> = BTreeMap::new();
     let mut by_writer: BTreeMap<String, usize> = BTreeMap::new();
@@ -139,6 +140,11 @@ fn main() {
         if frame_ends.len() != whole_blocks || frame_ends.last().copied().unwrap_or(meta_len) != snapshot.len() {
             out.viol("emitted-frames-unexpected", &format!("{} whole blocks were written but the bytes emitted before finalize hold {} parsable frames ({} bytes, last frame ends at {:?})", whole_blocks, frame_ends.len(), snapshot.len(), frame_ends.last()), &input);
             continue;
+        }
+        // the same bytes for the composed model (coq/e2e): its `stream` after the same writes must be this snapshot
+        if cases_prefix < scale(if thorough { 400 } else { 60 }) && pcm.len() <= 6000 && snapshot.len() <= 60000 {
+            cases_prefix += 1;
+            out.case(obj(&[("t", esc("case")), ("kind", esc("e2e_prefix")), ("profile", esc(profile())), ("writer", esc(&format!("{:?}", wr))), ("bytes", esc(&hex(&snapshot))), ("expect", ints(&pcm)), ("cfg", cfg.json())]));
         }
         let per = bs as usize * ch as usize;
         // prefixes: every write-call boundary; every byte if small; frame ends and their neighbours
